@@ -27,7 +27,7 @@ class Deadlock(Exception):
 
 
 class Sched:
-    def __init__(self, root, schedule, nthreads, park_timeout=60.0):
+    def __init__(self, root, schedule, nthreads, park_timeout=60.0, rendezvous=None):
         self.root = os.path.realpath(root)
         self.schedule = list(schedule)
         self.pos = 0
@@ -43,12 +43,31 @@ class Sched:
         self.trace = []
         self.deadlocked = False
         self.rr = 0
+        # rendezvous (guided search): writers 0 and 1 each have a label; whenever one reaches its label it
+        # is held until the other reaches its own (or `patience` yields pass); then `first` runs `steps`
+        # yields alone, then the other, then normal scheduling resumes and the rendezvous re-arms
+        self.rv = rendezvous
+        self.rv_wait = {}      # idx -> yield count when it started waiting
+        self.forced = []       # forced picks after a completed rendezvous
+        self.rendezvous_hits = 0
 
     # -- choose who runs next (lock held) ---------------------------------------------------
     def _pick(self, me=None):
         alive = sorted(self.alive)
         if not alive:
             return None
+        while self.forced:
+            t = self.forced.pop(0)
+            if t in self.alive:
+                return t
+        if self.rv_wait:
+            pat = self.rv.get("patience", 400)
+            for t, since in list(self.rv_wait.items()):
+                if t not in self.alive or self.yields - since > pat or not (set(alive) - set(self.rv_wait)):
+                    self.rv_wait.pop(t, None)  # partner gone / never arrives / everybody waits: give up
+            runnable = [t for t in alive if t not in self.rv_wait]
+            if runnable:
+                alive = runnable
         if self.schedule:
             # the generated schedule is consumed cyclically, so run lengths keep varying over a long run
             # (strict alternation after a short prefix explored one interleaving shape only)
@@ -76,6 +95,18 @@ class Sched:
             if self.current != idx:
                 return  # not the token holder (should not happen)
             self.yields += 1
+            rv = self.rv
+            if rv and idx in (0, 1) and what == rv["labels"][idx] and not self.forced:
+                partner = 1 - idx
+                if partner in self.rv_wait:
+                    # both writers stand at their labels
+                    self.rv_wait.pop(partner)
+                    self.rendezvous_hits += 1
+                    order = [idx, partner] if rv.get("first", 0) == idx else [partner, idx]
+                    k = max(1, int(rv.get("steps", 1)))
+                    self.forced = [order[0]] * k + [order[1]] * k + [order[0]] * k
+                elif partner in self.alive:
+                    self.rv_wait[idx] = self.yields
             nxt = self._pick(idx)
             if nxt is None or nxt == idx:
                 return
@@ -176,12 +207,12 @@ def _profiler(s, parts):
         if event == "call":
             fn = frame.f_code.co_filename
             if "/dvc_data/" in fn and not fn.endswith("callbacks.py") and (not parts or fn.endswith(parts)):
-                s.yield_point("call")
+                s.yield_point("call:" + frame.f_code.co_name)
 
     return prof
 
 
-def run_scheduled(root, schedule, fns, join_timeout=120.0, trace=None):
+def run_scheduled(root, schedule, fns, join_timeout=120.0, trace=None, rendezvous=None):
     """Run fns[i]() in writer thread i under the generated schedule.
 
     trace: None = yield at filesystem operations only; a tuple of file-name suffixes (possibly empty = all
@@ -191,7 +222,7 @@ def run_scheduled(root, schedule, fns, join_timeout=120.0, trace=None):
     """
     install()
     n = len(fns)
-    s = Sched(root, schedule, n)
+    s = Sched(root, schedule, n, rendezvous=rendezvous)
     results = [None] * n
 
     def body(i):
